@@ -231,7 +231,9 @@ def ens_segment_starts(I, env):
     p = z3.Int("p!e")
     R = lambda x: z3.Select(res.arr, x)
     last = L - 1 if stop else L          # entries that are starts (without the exclusive stop)
-    return [("no_atoms_no_starts", implies(n == 0, L == 0)),
+    from pyvc.core import is_int_ctype
+    return [("integer_dtype", z3.BoolVal(bool(res.ctype) and is_int_ctype(res.ctype))),        # the starts are used as indices
+            ("no_atoms_no_starts", implies(n == 0, L == 0)),
             ("first_start_is_0", implies(n > 0, z3.And(L >= 1, R(0) == 0))),
             ("exclusive_stop_is_the_length", implies(n > 0, R(L - 1) == n) if stop else z3.BoolVal(True)),
             ("strictly_ascending", implies(z3.And(n > 0, q >= 0, q < L - 1), R(q) < R(q + 1))),
